@@ -124,8 +124,10 @@ NoTopTie(p) == \A t, u \in DOMAIN p : (t # u /\ p[t] # {} /\ \A w \in DOMAIN p :
                                         => Cardinality(p[u]) < Cardinality(p[t])
 DoView == /\ Up /\ ~s.replaying
           /\ \E d \in Deltas : \E c \in Crashes :
-               /\ NoTopTie(AddDelta(s.vrv, d).pv) /\ NoTopTie(AddDelta(s.vrv, d).pc)
-               /\ Finish(ViewUpdate(Ctx0(s, st), [v |-> AddDelta(s.vrv, d), jump |-> NoJump]), "View", d, c)
+               \* the mirror's view of the round: what the state machine holds plus what its start-up filter hid from it
+               LET mv == [s.vrv EXCEPT !.phs = @ \cup s.hidden] IN
+               /\ NoTopTie(AddDelta(mv, d).pv) /\ NoTopTie(AddDelta(mv, d).pc)
+               /\ Finish(ViewUpdate(Ctx0(s, st), [v |-> AddDelta(mv, d), jump |-> NoJump]), "View", d, c)
 
 DoJump == /\ Up /\ ~s.replaying /\ s.R < MaxR
           /\ Finish(ViewUpdate(Ctx0(s, st), [v |-> NoView, jump |-> [h |-> s.H, r |-> s.R + 1]]), "Jump", [h |-> s.H, r |-> s.R + 1], FALSE)
